@@ -9,6 +9,30 @@ From TarpcV Require Import Base Transport TimerWheel Server ServerMon ServerFuel
 
 Definition PV (o : ostate) : Prop := h_b1 (o_v o) = true -> v08 (o_v o) = true.
 
+(* the part of InvH about the response queue: it survives a stream error *)
+Section InvQ.
+  Context {T : Type}.
+  Notation st := (@sstate T).
+  Record InvQ (o : ostate) (s : st) : Prop := {
+    q_unsent : forall k hr oi, nth_error (s_handlers s) k = Some hr -> nth_error (o_incs o) k = Some oi ->
+                 unsent (h_st hr) ->
+                 lastk (o_incs o) k (oi_id oi) /\ oi_wire oi <> WAnswered
+                 /\ ~ In (oi_id oi) (map resp_id (s_respq s));
+    q_nodup : NoDup (map resp_id (s_respq s));
+    q_prov : forall m, In m (s_respq s) ->
+                 exists k hr oi, nth_error (s_handlers s) k = Some hr /\ nth_error (o_incs o) k = Some oi
+                   /\ oi_id oi = resp_id m /\ lastk (o_incs o) k (resp_id m) /\ h_st hr = HDone
+                   /\ oi_done oi = Some (resp_body m) /\ oi_wire oi <> WAnswered }.
+  Lemma InvQ_of_InvH : forall o (s : st), InvH o s -> InvQ o s.
+  Proof. intros o s []. constructor; assumption. Qed.
+  Lemma InvQ_frame : forall o o' (s s' : st),
+    InvQ o s -> o_incs o' = o_incs o -> s_handlers s' = s_handlers s -> s_respq s' = s_respq s -> InvQ o' s'.
+  Proof. intros o o' s s' [] E1 E2 E3. constructor; rewrite ?E1, ?E2, ?E3; assumption. Qed.
+  Definition ErrQ (o : ostate) (s : st) : Prop := h_b1 (o_v o) = true -> InvQ o s.
+  Definition rpostQ (r : pres treq) (o : ostate) (s : st) : Prop :=
+    match r with PErr _ => ErrQ o s | _ => True end.
+End InvQ.
+
 Section PVall.
   Variable lim : option nat.
   Notation ocs := (fold_left (o_call lim)).
@@ -367,10 +391,13 @@ Section LoopsP2.
   Lemma requests_invP : forall c f (s : st) r s' o,
     cfg_limit c = lim ->
     BInv o s -> no_thr s -> BH o s -> o_pend o = None -> requests_poll_next tp c f s = (r, s') ->
-    exists new, ext s s' new /\ rpost c r (ocs new o) s' /\ no_thr s' /\ rpostH r (ocs new o) s' /\ PVall lim o new.
+    exists new, ext s s' new /\ rpost c r (ocs new o) s' /\ no_thr s' /\ rpostH r (ocs new o) s' /\ PVall lim o new
+                /\ rpostQ r (ocs new o) s'.
   Proof.
+    assert (ErrQ_of_GH : forall o (s : st), GH o s -> ErrQ o s).
+    { intros o s G Hb. destruct (G Hb) as (A & _). exact (InvQ_of_InvH _ _ A). }
     intros c f; induction f as [|f IH]; intros s r s' o Hlim HB Hnt HH Hp H; cbn [requests_poll_next] in H.
-    { injection H as <- <-. exists []. split; [apply ext_refl|split; [exact I|split; [exact Hnt|split; [exact I|apply PVall_nil, (PV_BH _ _ HH)]]]]. }
+    { injection H as <- <-. exists []. split; [apply ext_refl|split; [exact I|split; [exact Hnt|split; [exact I|split; [apply PVall_nil, (PV_BH _ _ HH)|exact I]]]]]. }
     destruct (pump_read tp c (S f) s) as [rd s1] eqn:ER.
     assert (Hrd : exists n1, ext s s1 n1 /\ post rd (ocs n1 o) s1 /\ postH rd (ocs n1 o) s1 /\ PVall lim o n1).
     { unfold pump_read in ER. destruct (cfg_limit c) as [l|]; [eapply maxreq_invP; eauto|eapply base_invP; eauto]. }
@@ -402,17 +429,18 @@ Section LoopsP2.
       pose proof (QInv_wpost _ _ _ _ _ (conj HI1 (conj HP1 Hce1)) WP) as HQ2.
       destruct wr as [u| |a| |]; injection H as <- <-; exists (n1 ++ n2); rewrite ocs_app;
         (split; [first [exact X02|unfold ext in *; sproj; exact X02]|]).
-      + split; [exact HQ2|split; [exact Hnt2|split; [exact (conj HQ2' Hin2)|exact Pv02]]].
-      + split; [exact HQ2|split; [exact Hnt2|split; [exact (conj HQ2' Hin2)|exact Pv02]]].
-      + split; [right; exists q, s2; split; [exact HQ2|reflexivity]|]. split; [intros m Hm; apply Hnt2; exact Hm|]. split; [|exact Pv02].
+      + split; [exact HQ2|split; [exact Hnt2|split; [exact (conj HQ2' Hin2)|split; [exact Pv02|exact I]]]].
+      + split; [exact HQ2|split; [exact Hnt2|split; [exact (conj HQ2' Hin2)|split; [exact Pv02|exact I]]]].
+      + split; [right; exists q, s2; split; [exact HQ2|reflexivity]|]. split; [intros m Hm; apply Hnt2; exact Hm|]. split; [|split; [exact Pv02|]].
+        2:{ intros Hb. destruct (HQ2' Hb) as (A & _). eapply InvQ_frame; [exact (InvQ_of_InvH _ _ A)|reflexivity..]. }
         intros Hb. destruct (HQ2' Hb) as (A & B & _).
         split; [|split; [exact B|]].
         * intros k hr Hk. destruct (h_safe _ _ A k hr Hk) as [(hr' & e & Y1 & Y2 & Y3)|R]; [left|right; exact R].
           exists hr', e. sproj. auto.
         * intros k oi Hk Hw. destruct (h_open_tracked _ _ A k oi Hk Hw) as (hr' & e & Y1 & Y2 & Y3).
           exists hr', e. sproj. auto.
-      + split; [exact HQ2|split; [exact Hnt2|split; [exact (conj HQ2' Hin2)|exact Pv02]]].
-      + split; [exact I|split; [exact Hnt2|split; [exact I|exact Pv02]]].
+      + split; [exact HQ2|split; [exact Hnt2|split; [exact (conj HQ2' Hin2)|split; [exact Pv02|exact I]]]].
+      + split; [exact I|split; [exact Hnt2|split; [exact I|split; [exact Pv02|exact I]]]].
     - destruct (pump_write tp true s1) as [wr s2] eqn:EW.
       destruct Post1 as (HI1 & Hh1 & Hce1). destruct PostH1 as ((Pk1 & G1) & Pn1).
       destruct (pump_write_invPB _ _ _ _ _ HI1 Hce1 Hnt1 (conj Hh1 G1) EW) as (n2 & X2 & WP & Hnt2 & (Hh2 & G2) & Pv2).
@@ -423,13 +451,14 @@ Section LoopsP2.
       assert (HH2 : BH (ocs n2 (ocs n1 o)) s2) by (split; [apply pend_ok_none; exact Pn2|exact G2]).
       destruct wr as [u| |a| |]; try (injection H as <- <-; exists (n1 ++ n2); rewrite ocs_app;
         (split; [exact X02|split; [first [exact HB2|left; exact HB2|exact I]|split; [exact Hnt2|split; [
-           first [exact (conj HH2 Pn2)|exact (ErrH_of_GH _ _ G2)|exact I]|exact Pv02]]]])).
+           first [exact (conj HH2 Pn2)|exact (ErrH_of_GH _ _ G2)|exact I]|split; [exact Pv02|first [exact I|exact (ErrQ_of_GH _ _ G2)]]]]]])).
       rewrite <- ocs_app in HB2, HH2, Pn2.
-      destruct (IH _ _ _ _ Hlim HB2 Hnt2 HH2 Pn2 H) as (n3 & X3 & Post3 & Hnt3 & PostH3 & Pv3).
-      exists ((n1 ++ n2) ++ n3). split; [eapply ext_trans; eauto|]. rewrite ocs_app. split; [auto|split; [auto|split; [auto|]]].
+      destruct (IH _ _ _ _ Hlim HB2 Hnt2 HH2 Pn2 H) as (n3 & X3 & Post3 & Hnt3 & PostH3 & Pv3 & PostQ3).
+      exists ((n1 ++ n2) ++ n3). split; [eapply ext_trans; eauto|]. rewrite ocs_app. split; [auto|split; [auto|split; [auto|split; [|exact PostQ3]]]].
       apply PVall_app; assumption.
-    - injection H as <- <-. exists n1. split; [exact X1|split; [left; exact Post1|split; [exact Hnt1|split; [|exact Pv1]]]].
-      destruct PostH1 as ((_ & G1) & _). exact (ErrH_of_GH _ _ G1).
+    - injection H as <- <-. exists n1. split; [exact X1|split; [left; exact Post1|split; [exact Hnt1|split; [|split; [exact Pv1|]]]]].
+      + destruct PostH1 as ((_ & G1) & _). exact (ErrH_of_GH _ _ G1).
+      + destruct PostH1 as ((_ & G1) & _). exact (ErrQ_of_GH _ _ G1).
     - destruct (pump_write tp false s1) as [wr s2] eqn:EW.
       destruct Post1 as (HI1 & Hh1 & Hce1). destruct PostH1 as ((Pk1 & G1) & Pn1).
       destruct (pump_write_invPB _ _ _ _ _ HI1 Hce1 Hnt1 (conj Hh1 G1) EW) as (n2 & X2 & WP & Hnt2 & (Hh2 & G2) & Pv2).
@@ -440,11 +469,11 @@ Section LoopsP2.
       assert (HH2 : BH (ocs n2 (ocs n1 o)) s2) by (split; [apply pend_ok_none; exact Pn2|exact G2]).
       destruct wr as [u| |a| |]; try (injection H as <- <-; exists (n1 ++ n2); rewrite ocs_app;
         (split; [exact X02|split; [first [exact HB2|left; exact HB2|exact I]|split; [exact Hnt2|split; [
-           first [exact (conj HH2 Pn2)|exact (ErrH_of_GH _ _ G2)|exact I]|exact Pv02]]]])).
+           first [exact (conj HH2 Pn2)|exact (ErrH_of_GH _ _ G2)|exact I]|split; [exact Pv02|first [exact I|exact (ErrQ_of_GH _ _ G2)]]]]]])).
       rewrite <- ocs_app in HB2, HH2, Pn2.
-      destruct (IH _ _ _ _ Hlim HB2 Hnt2 HH2 Pn2 H) as (n3 & X3 & Post3 & Hnt3 & PostH3 & Pv3).
-      exists ((n1 ++ n2) ++ n3). split; [eapply ext_trans; eauto|]. rewrite ocs_app. split; [auto|split; [auto|split; [auto|]]].
+      destruct (IH _ _ _ _ Hlim HB2 Hnt2 HH2 Pn2 H) as (n3 & X3 & Post3 & Hnt3 & PostH3 & Pv3 & PostQ3).
+      exists ((n1 ++ n2) ++ n3). split; [eapply ext_trans; eauto|]. rewrite ocs_app. split; [auto|split; [auto|split; [auto|split; [|exact PostQ3]]]].
       apply PVall_app; assumption.
-    - injection H as <- <-. exists n1. split; [exact X1|split; [exact I|split; [exact Hnt1|split; [exact I|exact Pv1]]]].
+    - injection H as <- <-. exists n1. split; [exact X1|split; [exact I|split; [exact Hnt1|split; [exact I|split; [exact Pv1|exact I]]]]].
   Qed.
 End LoopsP2.
